@@ -51,6 +51,30 @@ fn models(tier: Tier) -> Vec<Model> {
             .map(|(_, m)| m),
     );
     v.extend(crate::props::c09::reified_cumulative_models(tier).into_iter());
+    // clauses with three and four equalities on one variable (several watchers of one nogood in
+    // the same watch list) followed by unit clauses that remove those values one at a time, in
+    // every order
+    // (the values are interior to the domain: removing them makes holes, not bound changes)
+    let vars = vec![VarDecl::interval(0, 8), VarDecl::interval(0, 3)];
+    let eq = |val: i32| Pred::new(0, PredKind::Eq, val);
+    let ne = |val: i32| Con::PredClause(vec![Pred::new(0, PredKind::Ne, val)]);
+    let clauses = [
+        Con::PredClause(vec![eq(1), eq(3), eq(5), Pred::new(1, PredKind::Ge, 2)]),
+        Con::PredClause(vec![eq(5), Pred::new(1, PredKind::Le, 0), eq(1), eq(3)]),
+        Con::PredClause(vec![eq(2), eq(4), eq(6), eq(5), Pred::new(1, PredKind::Ne, 1)]),
+        Con::PredClause(vec![eq(1), eq(3), eq(5)]),
+    ];
+    let units = [ne(5), ne(3), ne(1), ne(6), ne(4), Con::PredClause(vec![Pred::new(1, PredKind::Le, 1)])];
+    for c in &clauses {
+        for (i, a) in units.iter().enumerate() {
+            for (j, b) in units.iter().enumerate().skip(i + 1) {
+                v.push(Model::new(vars.clone(), vec![c.clone(), a.clone(), b.clone()]));
+                for d in units.iter().skip(j + 1) {
+                    v.push(Model::new(vars.clone(), vec![c.clone(), a.clone(), b.clone(), d.clone()]));
+                }
+            }
+        }
+    }
     v
 }
 
